@@ -408,6 +408,37 @@ def blends(chk, prog):
            construct="affine Kalman update", line=fk.node.lineno)
 
 
+def aqua_short_arc(chk, prog):
+    """SHORT-ARC (interval analysis): AQUA corrects by interpolating between the identity and a delta quaternion (slerp_I).  The
+    interpolation follows the short arc -- towards the measured direction -- only if the delta quaternion's scalar part is >= 0;
+    every vector handed to slerp_I must therefore have a provably non-negative first component on every arm that builds it."""
+    from sa.interval import Intervals
+    for meth, want in (("updateIMU", 1), ("updateMARG", 2)):
+        f = prog.func(F + "aqua.py::AQUA." + meth)
+        chk.touch(f)
+        seen = []
+
+        def on_call(c, env, iv):
+            if ast.unparse(c.func).split(".")[-1] == "slerp_I" and c.args and isinstance(c.args[0], ast.Name):
+                seen.append((c, env.get(c.args[0].id + "[0]")))
+        Intervals(f, on_call=on_call).analyse()
+        uniq = {}
+        for c, b in seen:
+            prev = uniq.get(c.lineno)
+            uniq[c.lineno] = (c, b if prev is None or prev[1] is None or b is None else (min(prev[1][0], b[0]), max(prev[1][1], b[1])))
+        for c, b in uniq.values():
+            site = "%s::%s" % (f.ref, ast.unparse(c)[:60])
+            if b is not None and b[0] >= 0:
+                chk.record("SHORT-ARC", site, "scalar part of the delta quaternion lies in [%g, %g]" % b)
+            else:
+                why = "the delta quaternion `%s` handed to slerp_I can have a negative scalar part on some arm (bounds %s): the interpolation from the identity then runs the long " \
+                      "way round and the correction turns the estimate away from the measured direction" % (ast.unparse(c.args[0]), b)
+                chk.record("SHORT-ARC", site, "scalar part of the delta quaternion is non-negative on every arm", verdict="VIOLATION", detail=why)
+                chk.finding("SHORT-ARC", f.module.rel, f.qname, "slerp_I(%s, ...)" % ast.unparse(c.args[0]), why, line=c.lineno)
+        if len(uniq) < want:
+            chk.error("SHORT-ARC: %s has %d slerp_I calls, %d confirmed by hand" % (f.ref, len(uniq), want))
+
+
 def canaries(chk, prog):
     from sa.report import Check
 
@@ -460,5 +491,6 @@ def run(chk, prog, tier):
     oleq(chk, prog)
     chk.require_count("EQUILIBRIUM", 8)
     chk.require_count("FEEDBACK.jacobian", 3)
+    aqua_short_arc(chk, prog)
     canaries(chk, prog)
     return __doc__
